@@ -147,7 +147,7 @@ func c09Walk(doc any, rt reflect.Type, name string, path []any, envName string, 
 		for _, k := range keys {
 			f, ok := cgFieldByJSON(st, k)
 			if !ok {
-				panic(fmt.Sprintf("harness: no field %q in %v", k, st))
+				panic(fmt.Sprintf("VERIF-INCONCLUSIVE: harness: no field %q in %v", k, st))
 			}
 			c := ctx
 			c.optional = entity
